@@ -325,6 +325,15 @@ func (r *Run) applyContract(st *State, fr *Frame, x *ssa.Call, callee *ssa.Funct
 			props = r.spec.Props
 		}
 		r.oblige(st, fmt.Sprintf("call(%s).requires%d", cname, c.Ord), props, r.v.pos(x.Pos()), g)
+		if r.spec != nil {
+			top := fr
+			for top.parent != nil {
+				top = top.parent
+			}
+			last := r.obligs[len(r.obligs)-1]
+			last.Env = r.specEnv(st, top, "post")
+			last.Spec = r.spec
+		}
 		st.assume(g)
 	}
 	// termination of recursion: a call to the function under verification must decrease its measure
